@@ -1176,7 +1176,7 @@ fn out_root() -> PathBuf {
 /// Each scenario/bound runs in a forked child (a loom failure may abort; threads of a failed execution linger).
 fn run_child(prop: &str, tier: &str, idx: usize) -> Outcome {
 	let quick = tier != "thorough";
-	let wall = if quick { 40.0 } else { 1500.0 };
+	let wall = if quick { 40.0 } else { 900.0 };
 	match (prop, idx) {
 		("C15", 0) => explore("workers/2-small-commits", 1, wall, c15_scenario(&[8, 8], false)),
 		("C15", 1) => explore("workers/2-small-commits", 2, wall, c15_scenario(&[8, 8], false)),
